@@ -81,14 +81,16 @@ let cmd_ubl t =
       Stdlib.List.iter (apply_op f) ops;
       let out = { o_asset = f.(0); o_value = f.(1); o_script = f.(2); o_nonce = f.(3); o_rp = f.(4); o_sp = [] } in
       let r = if mode = "k" then o_unblind_with_key tb out key else o_unblind_with_nonce tb out key in
-      let head = Printf.sprintf "blind=ok ac=%s vc=%s nonce=%s proof=%s verify=%s"
-          (hex_of_bytes b.bl_asset) (hex_of_bytes b.bl_value) (hex_of_bytes b.bl_nonce) (hex_of_bytes b.bl_proof) (b2s verify) in
+      let lv = match o_last_value_range_proof tb value asset abf b.bl_value vbf script b.bl_nonce with
+        | None -> "err" | Some p -> if p = b.bl_proof then "same" else hex_of_bytes p in
+      let head = Printf.sprintf "blind=ok ac=%s vc=%s nonce=%s proof=%s verify=%s lv=%s"
+          (hex_of_bytes b.bl_asset) (hex_of_bytes b.bl_value) (hex_of_bytes b.bl_nonce) (hex_of_bytes b.bl_proof) (b2s verify) lv in
       match r with
-      | UErr -> Printf.printf "%s ures=err\n" head
-      | UPanic -> Printf.printf "%s ures=panic\n" head
+      | UErr -> Printf.printf "%s res=err\n" head
+      | UPanic -> Printf.printf "%s res=panic\n" head
       | UOk u ->
         let rc = if is_conf_out out then rc_of tb u out.o_asset out.o_value else "na" in
-        Printf.printf "%s ures=ok v=%s a=%s vbf=%s abf=%s rc=%s\n" head (hex_of_n u.u_value)
+        Printf.printf "%s res=ok v=%s a=%s vbf=%s abf=%s rc=%s\n" head (hex_of_n u.u_value)
           (hex_of_bytes u.u_asset) (hex_of_bytes u.u_vbf) (hex_of_bytes u.u_abf) rc
     end
 
@@ -127,9 +129,9 @@ let cmd_uiss t =
         Printf.sprintf "%sv=%s %sa=%s %svbf=%s %sabf=%s" p (hex_of_n u.u_value) p (hex_of_bytes u.u_asset)
           p (hex_of_bytes u.u_vbf) p (hex_of_bytes u.u_abf) in
       match o_unblind_issuance tb inp keys with
-      | UErr -> Printf.printf "%s ures=err\n" head
-      | UPanic -> Printf.printf "%s ures=panic\n" head
-      | UOk (ua, None) -> Printf.printf "%s ures=ok %s tok=0\n" head (pu "a" ua)
-      | UOk (ua, Some ut) -> Printf.printf "%s ures=ok %s tok=1 %s\n" head (pu "a" ua) (pu "t" ut)
+      | UErr -> Printf.printf "%s res=err\n" head
+      | UPanic -> Printf.printf "%s res=panic\n" head
+      | UOk (ua, None) -> Printf.printf "%s res=ok %s tok=0\n" head (pu "a" ua)
+      | UOk (ua, Some ut) -> Printf.printf "%s res=ok %s tok=1 %s\n" head (pu "a" ua) (pu "t" ut)
 
 let () = register "ubl" cmd_ubl; register "uiss" cmd_uiss
